@@ -461,7 +461,8 @@ def run(ctx):
             seen[bad[0][0]] = seen.get(bad[0][0], 0) + 1
             if bad[0][0] == CL_TEMP and seen[bad[0][0]] > 1:
                 return                       # same class: one witness is enough
-            nviol += 1
+            if bad[0][0] != CL_TEMP:
+                nviol += 1                   # the known class does not use up the reporting budget
             report(ctx, sc, res, bad, how, inject)
 
     with ctx.timed("impl"):
